@@ -65,6 +65,9 @@ class Profile:
         self.p_sealed = 0.15             # an interface whose only method is unexported ("sealed")
         self.p_name_placeholder = 0.1    # a by-name point whose name comes from configuration: wire:"${key}" / "${nokey:name}"
         self.p_embed_points = 0.1        # injection points declared in an embedded struct of an unexported type
+        self.p_local_twins = 0.08        # two "modules" of function-local types with the SAME type names (distinct Go types that print alike)
+        self.p_foreign_twins = 0.08      # components of two library types from different packages with one package NAME and one
+                                         # type name (text/template.Template, html/template.Template): they print alike
         self.p_reqspell = 0.12           # a required point spells the argument out (`required`, `required=True`, `required=no`, ...)
         self.p_initget = 0.0             # a component's Init asks the container for other components (extras: Model/FactoryX.v)
         self.p_short = 0.0               # a processor short-circuits the instantiation of some components (extras)
@@ -73,6 +76,11 @@ class Profile:
 
 
 QUALS = ["qa", "qb", "qc", "", "QA", "qB"]
+# (import alias, import path, type name): pairs whose reflect.Type.String() coincide
+FOREIGN_PAIRS = [(("texttemplate", "text/template", "Template"), ("htmltemplate", "html/template", "Template")),
+                 (("textscanner", "text/scanner", "Scanner"), ("goscanner", "go/scanner", "Scanner"))]
+FOREIGN_IMPORTS = "".join('import %s "%s"\n' % (a, p) for pair in FOREIGN_PAIRS for a, p, _ in pair) + \
+    "var _ = []any{%s}\n" % ", ".join("(*%s.%s)(nil)" % (a, n) for pair in FOREIGN_PAIRS for a, _, n in pair)
 RETS = ["red", "blue", "green"]
 NAME_POOLS = ["a", "h", "m", "z"]
 
@@ -281,6 +289,48 @@ def gen_scenario(rng, sid, pf):
                 else:
                     c["proc"]["early"][tci] = 1
                     c["proc"]["after"][tci] = 3
+    # function-local twin modules: in each, a provider type `L` and a holder type `H` with `*L` / `[]*L` points; the two
+    # L (and the two H) are different Go types whose reflect.Type.String() is the same
+    if rng.random() < pf.p_local_twins:
+        for g in range(2):
+            li = len(types)
+            types.append({"ifaces": [], "naming": True, "qual": False, "primary": False, "lazy": False, "aps": False,
+                          "init": False, "runner": None, "closer": False, "proc": None, "methods": [], "fields": [],
+                          "cfields": [], "bare": "sized", "local": g, "lname": "L"})
+            opt = rng.random() < 0.3
+            types.append({"ifaces": [], "naming": True, "qual": False, "primary": False, "lazy": False,
+                          "aps": False, "init": False, "runner": None, "closer": False, "proc": None, "methods": [],
+                          "fields": [{"slice": False, "target": ("ptr", li), "sel": ("type",), "quals": None, "required": not opt},
+                                     {"slice": True, "target": ("ptr", li), "sel": ("type",), "quals": None, "required": not opt}],
+                          "cfields": [], "bare": "sized", "local": g, "lname": "H"})
+            for ti in (li, li + 1):
+                comps.append({"type": ti, "name": fresh_name(), "qual": "", "apsFail": False, "initFail": False,
+                              "runFail": False, "closeErr": False, "ord": 0, "rets": {}, "proc": None})
+    # foreign twins: one component of each type of a pair, and a holder with `*T` / `[]*T` points for both
+    if rng.random() < pf.p_foreign_twins:
+        pair = rng.choice(FOREIGN_PAIRS)
+        fis = []
+        for f in pair:
+            fis.append(len(types))
+            types.append({"ifaces": [], "naming": False, "qual": False, "primary": False, "lazy": False, "aps": False,
+                          "init": False, "runner": None, "closer": False, "proc": None, "methods": [], "fields": [],
+                          "cfields": [], "bare": "sized", "foreign": list(f)})
+            comps.append({"type": fis[-1], "name": "", "qual": "", "apsFail": False, "initFail": False,
+                          "runFail": False, "closeErr": False, "ord": 0, "rets": {}, "proc": None})
+        opt = rng.random() < 0.3
+        hf = []
+        for fi in rng.sample(fis, 2):
+            hf.append({"slice": False, "target": ("ptr", fi), "sel": ("type",), "quals": None, "required": not opt})
+            if rng.random() < 0.6:
+                hf.append({"slice": True, "target": ("ptr", fi), "sel": ("type",), "quals": None, "required": not opt})
+        if rng.random() < 0.5:
+            hf.append({"slice": False, "target": ("ptr", fis[0]), "sel": ("name", "%s/%s" % (pair[0][1], pair[0][2])),
+                       "quals": None, "required": not opt})
+        types.append({"ifaces": [], "naming": False, "qual": False, "primary": False, "lazy": False, "aps": False,
+                      "init": rng.random() < 0.5, "runner": None, "closer": False, "proc": None, "methods": [],
+                      "fields": hf, "cfields": []})
+        comps.append({"type": len(types) - 1, "name": "", "qual": "", "apsFail": False, "initFail": False,
+                      "runFail": False, "closeErr": False, "ord": 0, "rets": {}, "proc": None})
     # extras (outside the assumptions of the Model/Factory.v theorems; modelled by Model/FactoryX.v)
     for ci, c in enumerate(comps):
         t = types[c["type"]]
@@ -442,8 +492,11 @@ def tag_of(p, key=None):
     return 'wire:"%s%s"' % (val, args)
 
 
-def go_field_type(sid, p):
+def go_field_type(sid, p, types=None):
     t = p["target"]
+    if t[0] == "ptr" and types is not None and types[t[1]].get("foreign"):
+        f = types[t[1]]["foreign"]
+        return ("[]" if p["slice"] else "") + "*%s.%s" % (f[0], f[2])
     base = {"ptr": lambda: "*" + go_type_name(sid, t[1]), "iface": lambda: "I%d_%d" % (sid, t[1]),
             "any": lambda: "any", "other": lambda: "int", "app": lambda: "*app.App"}[t[0]]()
     return ("[]" if p["slice"] else "") + base
@@ -456,8 +509,32 @@ def gen_go(scn):
     mname = lambda i: ("mI%d_%d" if sealed[i] else "MI%d_%d") % (sid, i)
     for i in range(scn["nif"]):
         out.append("type I%d_%d interface{ %s() }" % (sid, i, mname(i)))
+    locals_ = {}
+    for ti, t in enumerate(scn["types"]):
+        if t.get("local") is not None:
+            locals_.setdefault(t["local"], []).append(ti)
+    for g, tis in sorted(locals_.items()):
+        body = []
+        for ti in tis:
+            t = scn["types"][ti]
+            flds = ["\t\twx.NameMix", "\t\tX int"]
+            for k, p in enumerate(t["fields"]):
+                lt = scn["types"][p["target"][1]]["lname"]
+                flds.append("\t\tW%d %s*%s `%s`" % (k, "[]" if p["slice"] else "", lt, tag_of(p)))
+            body.append("\ttype %s struct {\n%s\n\t}" % (t["lname"], "\n".join(flds)))
+        for ti in tis:
+            t = scn["types"][ti]
+            body.append('\twx.Ctors["%s"] = func(b wx.Base) any { return &%s{NameMix: wx.NameMix{N: b.C.Name}} }'
+                        % (go_type_name(sid, ti), t["lname"]))
+        out.append("func init() {\n%s\n}" % "\n".join(body))
     for ti, t in enumerate(scn["types"]):
         tn = go_type_name(sid, ti)
+        if t.get("local") is not None:
+            continue
+        if t.get("foreign"):
+            f = t["foreign"]
+            out.append('func init() {\n\twx.Ctors["%s"] = func(b wx.Base) any { return &%s.%s{} }\n}' % (tn, f[0], f[2]))
+            continue
         if t.get("bare"):
             out.append("type %s struct {%s}" % (tn, " X int " if t["bare"] == "sized" else ""))
             for i in t["ifaces"]:
@@ -472,7 +549,7 @@ def gen_go(scn):
         if emb:
             out.append("type e%s struct {" % tn)
             for k, p in enumerate(t["fields"]):
-                out.append("\tW%d %s `%s`" % (k, go_field_type(sid, p), tag_of(p, name_key(sid, ti, k))))
+                out.append("\tW%d %s `%s`" % (k, go_field_type(sid, p, scn["types"]), tag_of(p, name_key(sid, ti, k))))
             out.append("}")
         out.append("type %s struct {\n\tb wx.Base" % tn)
         if emb:
@@ -489,7 +566,7 @@ def gen_go(scn):
             out.append("\twx.PrioM")
         for k, p in enumerate(t["fields"]):
             if not emb:
-                out.append("\tW%d %s `%s`" % (k, go_field_type(sid, p), tag_of(p, name_key(sid, ti, k))))
+                out.append("\tW%d %s `%s`" % (k, go_field_type(sid, p, scn["types"]), tag_of(p, name_key(sid, ti, k))))
         for k, cp in enumerate(t["cfields"]):
             key = "k%d_%d_%d" % (sid, ti, k)
             opt = "" if cp["required"] else ",required=false"
@@ -532,6 +609,9 @@ def gen_go(scn):
 
 def regname_of(scn, ci):
     c = scn["comps"][ci]
+    f = scn["types"][c["type"]].get("foreign")
+    if f and not c["name"]:
+        return "%s/%s" % (f[1], f[2])
     return c["name"] if c["name"] else "%s/%s" % (PKG, go_type_name(scn["id"], c["type"]))
 
 
@@ -847,7 +927,7 @@ def build_batch(ctx, scns, tag):
     open(os.path.join(d, "main.go"), "w").write(MAIN_GO)
     chunk = 50
     for i in range(0, len(scns), chunk):
-        body = "package main\n\nimport \"verifharness/wx\"\n\nvar _ = wx.Ctors\n\n" + "\n".join(gen_go(s) for s in scns[i:i + chunk])
+        body = "package main\n\nimport \"verifharness/wx\"\n" + FOREIGN_IMPORTS + "\nvar _ = wx.Ctors\n\n" + "\n".join(gen_go(s) for s in scns[i:i + chunk])
         open(os.path.join(d, "types_%d.go" % (i // chunk)), "w").write(body)
     rel = "./" + os.path.relpath(d, vlib.HARNESS)
     return vlib.go_build(ctx, rel, out=ctx.wpath("wb_%s.bin" % tag))
